@@ -398,7 +398,7 @@ def export_block_rows_are_rectangular(K, with_descriptions, extra_rows):
 
 
 # ------------------------------------------------------------------------------ CSV round trip: bounded stand-in (NOT a proof)
-@bounded("C19", bound="databoxes of 1-4 series over {yearly, quarterly, monthly, integer} frequencies (one frequency per box, every third box mixed), nested/staggered spans of 1-12 periods, 1-2 variants, interior NaNs, descriptions; 60 boxes quick / 600 thorough; values rounded to 8 decimals")
+@bounded("C19", bound="databoxes of 1-4 series over {yearly, quarterly, monthly, integer} frequencies (one frequency per box, every third box mixed), nested/staggered spans of 1-12 periods, 1-2 variants, interior NaNs, descriptions, delimiters comma/semicolon/tab; 60 boxes quick / 600 thorough; values rounded to 8 decimals")
 def csv_roundtrip_native(B):
     """to_csv_file / from_csv_file return the same names, descriptions, frequencies, spans and values."""
     import os, tempfile
@@ -429,8 +429,9 @@ def csv_roundtrip_native(B):
             path = os.path.join(tmp, f"box{k}.csv")
             try:
                 with_desc = bool(k % 2)
-                db.to_csv_file(path, description_row=with_desc, numeric_format=".12g")
-                back = Databox.from_csv_file(path, description_row=with_desc)
+                delim = (",", ",", ";", "\t")[k % 4]        # the same declared delimiter on both sides
+                db.to_csv_file(path, description_row=with_desc, numeric_format=".12g", delimiter=delim)
+                back = Databox.from_csv_file(path, description_row=with_desc, delimiter=delim)
             except Exception as ex:
                 B.fail(f"exception {type(ex).__name__}: {ex}", {"box": {n: (str(s.start), s.data.tolist()) for n, s in db.items()}})
                 return
@@ -520,3 +521,42 @@ def export_rows_follow_the_requested_periods(K, k):
     K.instantiate(t)
     nxs, nxd = state(K, x)
     K.ensure("series untouched", K.cell_eq(V(K, nxs, nxd, t, 0), V(K, xs, xd, t, 0)))
+
+
+# ------------------------------------------------------------------------------ CSV import: the declared delimiter
+import io as _io
+import builtins as _builtins
+from irispie.databoxes import _imports as IMP
+PIM = "irispie.databoxes._imports:"
+
+
+@contract("C19", targets=[PIM + "_read_csv"], instances=[(",",), (";",), ("\t",)], cross=2)
+def csv_cells_are_split_at_the_declared_delimiter(K, delimiter):
+    """_read_csv(file, ..., delimiter=d) returns the cells of every row split at d - the character to_csv_file(delimiter=d)
+    wrote between them (quoted cells may contain it)."""
+    rows = [["__quarterly__", "a", "b", ""], ["2020-Q1", "1.5", "", ""], ["2020-Q2", 'x' + delimiter + 'y', "-2", ""]]
+    text = "".join(delimiter.join('"' + c + '"' if delimiter in c else c for c in r) + "\n" for r in rows)
+    out = K.stubbed(_builtins.open, lambda f, *a, **k: _io.StringIO(text), "the file system: open(name) returns a reader of the sheet's text",
+                    lambda: K.call(IMP._read_csv, "sheet.csv", 1, delimiter=delimiter))
+    K.ensure("the cells of the sheet, row by row", [list(r) for r in K.items(out)] == rows)
+
+
+@contract("C19", targets=[PIM + "Inlay.from_csv_file"], instances=[(",",), (";",)], cross=0, opts={"max_paths": 500})
+def csv_import_hands_the_declared_delimiter_to_both_readers(K, delimiter):
+    """from_csv_file(file, delimiter=d): the header/date cells AND the numeric block are read with d."""
+    header = [["__quarterly__", "a", ""], ["2020-Q1", "1.5", ""]]
+    seen = {}
+
+    def read_csv(file_name, num_header_rows, *a, **k):
+        seen["csv"] = k.get("delimiter", a[0] if a else ",")
+        return header
+
+    def read_array(file_name, block, num_header_rows, *a, **k):
+        seen["array"] = k.get("delimiter", a[0] if a else ",")
+        return np.array([[1.5]])
+    db = K.stubbed(IMP._read_csv, read_csv, "reading the cells of the sheet has its own contract (csv_cells_are_split_at_the_declared_delimiter)",
+                   lambda: K.stubbed(IMP._read_array_for_block, read_array, "numpy.genfromtxt on the file: external",
+                                     lambda: K.call(Databox.from_csv_file, "sheet.csv", delimiter=delimiter)))
+    K.ensure("header and date cells are read with the declared delimiter", seen.get("csv") == delimiter)
+    K.ensure("the numeric block is read with the declared delimiter", seen.get("array") == delimiter)
+    K.ensure("the series arrives", list(K.method(db, "get_names")) == ["a"])
